@@ -143,11 +143,26 @@ StepValid(st, prev, iw) == StepViol(st, prev, iw) = {}
 Ambiguous(st) == st.sh /\ (\/ (st.req # << >> /\ AmountsPresent(st) /\ ReqTotal(st) = 0)
                            \/ (st.sin # << >> /\ SIn(st) = 0))
 
-\* Order in which Step::from_parts currently evaluates its checks (information only).
-CodeOrder == << "BalanceInvalid", "PaymentPoolsMismatch", "PaymentAmountMissing", "ReferenceError", "Overflow",
+\* Order in which Step::from_parts currently evaluates its checks (information only). The payment map is
+\* walked in index order, and for each index deliverability is tested before the amount.
+CodeOrder == << "BalanceInvalid", "PaymentPoolsMismatch", "PaymentAmountMissing", "Overflow", "ReferenceError",
                "RequestTotalInvalid", "ShieldingInvalid", "OrchardPoolPayment", "OrchardPoolValueCreation",
                "MissingShieldedAnchor", "BalanceError" >>
-FirstOf(V) == IF V = {} THEN "" ELSE CodeOrder[MinOf({x \in 1..Len(CodeOrder) : CodeOrder[x] \in V})]
+MapFirst(st) ==      \* which of the two payment-map errors comes first
+    IF Len(st.pools) # Len(st.req) THEN "PaymentPoolsMismatch"
+    ELSE LET badIdx == {i \in PoolIdx(st) :
+                          \/ ~HasPay(st, i)
+                          \/ \E x \in 1..Len(st.pools) : st.pools[x].i = i /\ ~Deliverable(PayAt(st, i).k, st.pools[x].p)
+                          \/ PayAt(st, i).a = NoAmt}
+         IN IF badIdx = {} THEN "PaymentPoolsMismatch"
+            ELSE LET i == MinOf(badIdx)
+                 IN IF HasPay(st, i) /\ (\A x \in 1..Len(st.pools) : st.pools[x].i = i => Deliverable(PayAt(st, i).k, st.pools[x].p))
+                    THEN "PaymentAmountMissing" ELSE "PaymentPoolsMismatch"
+FirstOf(st, V) ==
+    IF V = {} THEN ""
+    ELSE IF {"PaymentPoolsMismatch", "PaymentAmountMissing"} \subseteq V THEN MapFirst(st)
+    ELSE IF {"Overflow", "ReferenceError"} \subseteq V /\ TIn(st) <= M /\ SIn(st) <= M THEN "ReferenceError"
+    ELSE CodeOrder[MinOf({x \in 1..Len(CodeOrder) : CodeOrder[x] \in V})]
 
 --------------------------------------------------------------------------------------------
 (* The list as a whole (Proposal::multi_step): R3 again for the list as given, R9, R10.          *)
@@ -166,6 +181,22 @@ ListViol(ps) ==
               THEN {"StepDoubleSpend"} ELSE {})
     \cup  (IF \E o1, o2 \in ChainOcc(ps) : o1 # o2 /\ ChainId(ps, o1) = ChainId(ps, o2)
               THEN {"ChainDoubleSpend"} ELSE {})
+
+\* Order in which Proposal::multi_step currently walks the list (information only): step by step; within a
+\* step its references in order (dangling before already-consumed), then its transparent, then its shielded
+\* inputs. An occurrence is << step, 0 | 1 | 2, position >>.
+OccLt(a, b) == a[1] < b[1] \/ (a[1] = b[1] /\ (a[2] < b[2] \/ (a[2] = b[2] /\ a[3] < b[3])))
+ListFirst(ps) ==
+    LET refOcc == {<< o[1], 0, o[2] >> : o \in RefOcc(ps)}
+        chOcc  == {<< o[1], o[2] + 1, o[3] >> : o \in ChainOcc(ps)}
+        ref(o) == ps[o[1]].prior[o[3]]
+        cid(o) == ChainId(ps, << o[1], o[2] - 1, o[3] >>)
+        dangling(o) == ~RefOk(SubSeq(ps, 1, o[1] - 1), ref(o))
+        failing == {o \in refOcc : dangling(o) \/ \E q \in refOcc : OccLt(q, o) /\ ref(q) = ref(o)}
+                   \cup {o \in chOcc : \E q \in chOcc : OccLt(q, o) /\ cid(q) = cid(o)}
+    IN IF failing = {} THEN ""
+       ELSE LET o == CHOOSE f \in failing : \A g \in failing : f = g \/ OccLt(f, g)
+            IN IF o[2] = 0 THEN (IF dangling(o) THEN "ReferenceError" ELSE "StepDoubleSpend") ELSE "ChainDoubleSpend"
 
 \* every step valid given its predecessors in THIS list
 StepsValid(ps, iw) == \A x \in 1..Len(ps) : StepValid(ps[x], SubSeq(ps, 1, x - 1), iw)
